@@ -26,6 +26,12 @@
 //!                         bit0 s2c, bit1 c2s, bit2 i2c, bit3 normalize_intensity, bit4 normalize_color, bit5 apply_pose)
 //!                         desc  fo=<n>;rec=<n>;proto=<..>;il=<..>|~;cl=<..>|~;pose=<..>|-   (~ = limits absent)
 //!                         result: `raw n=.. end=.. pts=..` then ` # o<k> n=.. end=.. pts=..` per option vector
+//! SESS2 <fault> <devhex> op... [T:...]
+//!                         several read operations on ONE reader (the SESS kind of file.rs plus simple iteration):
+//!                         X | R:<off>:<records>:<types>:<limit> | B:<off>:<len> |
+//!                         S:<off>:<records>:<proto with names>:<optionmask>:<limit>[:<il>:<cl>:<pose>]
+//!                         limit = number of points after which the client stops, or `all`
+//!                         result: `open:ok # <result of op> # ...`
 use crate::bits::{parse_value, show_value};
 use crate::dev::Dev;
 use crate::file::{parse_name, parse_points};
@@ -419,8 +425,124 @@ fn run_simrd(toks: &[&str]) -> String {
     out.join(" # ")
 }
 
+fn summary(pts: Vec<String>, fin: String) -> String {
+    let txt = pts.join(";");
+    let h = fnv_hex(fnv_bytes(FNV_INIT, txt.as_bytes()));
+    if txt.len() <= 1500 {
+        format!("n={} end={} h={} pts={}", pts.len(), fin, h, txt)
+    } else {
+        format!("n={} end={} h={}", pts.len(), fin, h)
+    }
+}
+
+fn drain_limited<T, I: Iterator<Item = e57::Result<T>>>(it: I, limit: Option<usize>, show: impl Fn(&T) -> String) -> String {
+    let mut it = it;
+    let mut pts = Vec::new();
+    let mut fin = "none".to_string();
+    loop {
+        if let Some(n) = limit {
+            if pts.len() >= n {
+                break;
+            }
+        }
+        match guard(|| it.next()) {
+            None => {
+                fin = "P".to_string();
+                break;
+            }
+            Some(None) => break,
+            Some(Some(Ok(p))) => pts.push(show(&p)),
+            Some(Some(Err(e))) => {
+                fin = format!("e{}", err_name(&e));
+                break;
+            }
+        }
+    }
+    summary(pts, fin)
+}
+
+fn run_sess2(toks: &[&str]) -> String {
+    let fault = if toks[0] == "-" { None } else { Some(toks[0].parse().unwrap()) };
+    let dev = Dev::new(resolve_dev(toks[1]), fault);
+    let mut r = match guard(|| E57Reader::new(dev.clone())) {
+        None => return "open:P".to_string(),
+        Some(Err(e)) => return format!("open:e{}", err_name(&e)),
+        Some(Ok(r)) => r,
+    };
+    let mut outs = vec!["open:ok".to_string()];
+    for t in &toks[2..] {
+        if t.starts_with("T:") {
+            continue;
+        }
+        let parts: Vec<&str> = t.split(':').collect();
+        let lim = |s: &str| if s == "all" { None } else { Some(s.parse::<usize>().unwrap()) };
+        let o = match parts[0] {
+            "X" => format!("xml={}", fnv_hex(fnv_bytes(FNV_INIT, r.xml().as_bytes()))),
+            "R" => {
+                let mut pc = PointCloud::default();
+                pc.file_offset = parts[1].parse().unwrap();
+                pc.records = parts[2].parse().unwrap();
+                pc.prototype = parts[3]
+                    .split(',')
+                    .filter(|x| !x.is_empty())
+                    .enumerate()
+                    .map(|(i, t)| Record {
+                        name: RecordName::Unknown { namespace: "v".to_string(), name: format!("a{}", i) },
+                        data_type: parse_dtype(t),
+                    })
+                    .collect();
+                match guard(|| r.pointcloud_raw(&pc)) {
+                    None => "new:P".to_string(),
+                    Some(Err(e)) => format!("new:e{}", err_name(&e)),
+                    Some(Ok(it)) => drain_limited(it, lim(parts[4]), |p: &Vec<RecordValue>| {
+                        p.iter().map(show_value).collect::<Vec<_>>().join(",")
+                    }),
+                }
+            }
+            "S" => {
+                let mut pc = PointCloud::default();
+                pc.file_offset = parts[1].parse().unwrap();
+                pc.records = parts[2].parse().unwrap();
+                pc.prototype = parse_proto(parts[3]);
+                let k: u32 = parts[4].parse().unwrap();
+                if parts.len() > 8 {
+                    pc.intensity_limits = parse_il(parts[6]);
+                    pc.color_limits = parse_cl(parts[7]);
+                    pc.transform = parse_pose(parts[8]);
+                }
+                match guard(|| r.pointcloud_simple(&pc)) {
+                    None => "new:P".to_string(),
+                    Some(Err(e)) => format!("new:e{}", err_name(&e)),
+                    Some(Ok(mut it)) => {
+                        it.spherical_to_cartesian(k & 1 != 0);
+                        it.cartesian_to_spherical(k & 2 != 0);
+                        it.intensity_to_color(k & 4 != 0);
+                        it.normalize_intensity(k & 8 != 0);
+                        it.normalize_color(k & 16 != 0);
+                        it.apply_pose(k & 32 != 0);
+                        drain_limited(it, lim(parts[5]), show_point)
+                    }
+                }
+            }
+            "B" => {
+                let blob = e57::Blob::new(parts[1].parse().unwrap(), parts[2].parse().unwrap());
+                let mut out = Vec::new();
+                match guard(|| r.blob(&blob, &mut out)) {
+                    None => "P".to_string(),
+                    Some(Ok(n)) => format!("ok n={} h={}", n, fnv_hex(fnv_bytes(FNV_INIT, &out))),
+                    Some(Err(e)) => format!("e{}", err_name(&e)),
+                }
+            }
+            _ => panic!("bad sess2 op"),
+        };
+        outs.push(o);
+    }
+    outs.join(" # ")
+}
+
 pub fn run(kind: &str, toks: &[&str]) -> Option<String> {
     match kind {
+        "SESS2" => Some(run_sess2(toks)),
         "TRIG" => Some(run_trig(toks)),
         "PPOST" => Some(run_ppost(toks)),
         "SIMW" => Some(run_simw(toks)),
